@@ -166,3 +166,8 @@ func vX509Cert(name string) *x509.Certificate
 func vVerifyCertificate(ctx *dsig.ValidationContext, sig *dsigtypes.Signature) (*x509.Certificate, error)
 func vCertRaw(c *x509.Certificate) []byte
 func vStripWS(s string) string
+
+func vMarshalRoundTrip(v interface{}, out interface{}) bool
+
+func vDigestHashIs(k int, h crypto.Hash) bool
+func vDigestCanonIs(k int, c dsig.Canonicalizer) bool
